@@ -392,8 +392,11 @@ fn optimize_stmt(
           loop_value,
         })
         .collect_vec();
-      if let Some((Statement::Break(e), rest)) = stmts.split_last() {
-        // Now we know that the loop will only loop once!
+      if let Some((Statement::Break(e), rest)) = stmts.split_last()
+        && !super::loop_induction_analysis::stmts_contains_break(rest)
+      {
+        // Now we know that the loop will only loop once! (An earlier conditional break would be left
+        // without a loop to leave, so such loops are kept.)
         for v in loop_variables {
           value_cx.checked_bind(v.name, v.initial_value);
         }
@@ -512,8 +515,10 @@ fn try_optimize_loop_for_some_iterations(
       binary_expr_cx,
       &mut first_run_optimized_stmts,
     );
-    if let Some(last_stmt) = first_run_optimized_stmts.last() {
-      if !last_stmt.is_break() {
+    if let Some((last_stmt, rest)) = first_run_optimized_stmts.split_last() {
+      // The first iteration can only be peeled when it is straight-line code: a conditional break among
+      // the peeled statements would have no loop left to exit from.
+      if !last_stmt.is_break() || super::loop_induction_analysis::stmts_contains_break(rest) {
         pop_scope(value_cx, index_access_cx, binary_expr_cx);
         return vec![Statement::While { loop_variables, statements: stmts, break_collector }];
       }
